@@ -292,7 +292,7 @@ class Ctx:
         e["TRACE_FILE"] = tracefile
         r = self.tlc(module, cfg, env=e, workers=workers, timeout=timeout, heap=heap, count=False, **kw)
         fails, warns = [], []
-        for m in re.finditer(r'^"(FAIL|WARN)\|(\d+)\|([^|"]*)\|([^|"]*)\|([^"]*)"\s*$', r["out"], re.M):
+        for m in re.finditer(r'^"(FAIL|WARN)\|(\d+)\|([^|]*)\|([^|]*)\|(.*)"\s*$', r["out"], re.M):
             rec = {"line": int(m.group(2)), "case": m.group(3), "what": m.group(4), "detail": m.group(5)[:600]}
             (fails if m.group(1) == "FAIL" else warns).append(rec)
         # every report must have been parsed: a lost FAIL line would be a silent miss
